@@ -353,6 +353,7 @@ pub fn dispatch(args: &Args) -> i32 {
         }
         "replay" => crate::extra::replay(args),
         "floatop" => crate::floatop::run(args),
+        "deepnest" => crate::extra::deepnest(args),
         "valtable" => {
             use exmex::MakeOperators;
             let ops = exmex::ValOpsFactory::<i32, f64>::make();
